@@ -188,8 +188,11 @@ theorem membersUnique_of_merged (doc : Doc) (d : SchemaD) (hdecl : Declared doc 
 /-! ### the rules of the specification -/
 
 /-- the type-system rules of the specification that concern what the builder computes: `SdlValid` of Spec/SdlSpec.lean
-    + kind rules of eager references + root operation rules + specified directives are not redefined.  Nothing here is
-    about the code. -/
+    + kind rules of eager references + root operation rules + specified directives are not redefined.  Two fields mention
+    the model: `valid.declares` and `declares` (through `Declared`, which is computed with the member builders).  Both are
+    equivalent to statements without them: `declares_iff_rules` (named rules of Spec/SdlRules.lean, Props/C11_rules.lean)
+    and `declaredSpec_iff` (`Declared doc = some d ↔ DeclaredSpec doc d`, the relational specification of
+    Spec/SdlDeclared.lean, Props/C11_declared.lean). -/
 structure SdlRules (doc : Doc) (d : SchemaD) : Prop where
   valid : SdlValid doc
   declares : Declared doc = some d
